@@ -170,6 +170,14 @@ func (vc *VC) runLemma(lm *Lemma, sp *ssa.Package) {
 					nv.Typ = callee.Params[k+off].Type()
 					v = &nv
 				}
+				if k+off < len(callee.Params) && v.Typ != nil {
+					pt := callee.Params[k+off].Type()
+					if _, isI := pt.Underlying().(*types.Interface); isI {
+						if _, argI := v.Typ.Underlying().(*types.Interface); !argI {
+							v = fr.makeIface(v, v.Typ, pt) // implicit conversion to the interface parameter
+						}
+					}
+				}
 				args = append(args, v)
 			}
 			if bad {
